@@ -41,6 +41,13 @@ func witnesses() map[string]Case {
 	p.DocRels = []foreign.Rel{{ID: "rId3", Type: foreign.RelTheme, Target: "theme/theme1.xml"}}
 	w[kfRelIDAlloc] = Case{Pkg: p, Ops: []ops.Op{pngOp(1)}}
 
+	// header1.xml is in the package but no section refers to it; its relationship has the id the allocator hands out next
+	p = foreign.Minimal()
+	p.Parts = []foreign.Part{{Name: "word/header1.xml", CT: "application/vnd.openxmlformats-officedocument.wordprocessingml.header+xml", Override: true, Kind: "header",
+		XML: `<?xml version="1.0" encoding="UTF-8" standalone="yes"?>` + "\n" + `<w:hdr xmlns:w="` + foreign.NSW + `"><w:p><w:r><w:t>unused header</w:t></w:r></w:p></w:hdr>`}}
+	p.DocRels = []foreign.Rel{{ID: "rId3", Type: foreign.RelHeader, Target: "header1.xml"}}
+	w[kfRelIDHeader] = Case{Pkg: p, Ops: []ops.Op{{K: "header", I: []int{0}, S: []string{"first definition"}}, {K: "header", I: []int{0}, S: []string{"second definition"}}}}
+
 	p = foreign.Minimal()
 	p.PkgRels = []foreign.Rel{{ID: "rId2", Type: foreign.RelOfficeDoc, Target: "word/document.xml"}}
 	w[kfPkgRelID] = Case{Pkg: p, Ops: []ops.Op{{K: "footnote", S: []string{"text", "note"}}}}
